@@ -2,7 +2,7 @@
    each case is evaluated here: model vs implementation (corr), proven oracle on the implementation's
    output (spec), and whether the case lies in the theorem's domain (wf). *)
 From Coq Require Import ZArith QArith Qround Qabs List Bool.
-From RV Require Export Base.PyNum Timing.Snapper Timing.Snap Timing.TimingMap Timing.Integrate Timing.Domain Generated.Tables.
+From RV Require Export Base.PyNum Timing.Snapper Timing.Snap Timing.TimingMap Timing.Integrate Timing.Domain Timing.Domain2 Generated.Tables.
 Import ListNotations.
 Open Scope Q_scope.
 
@@ -37,32 +37,18 @@ Definition in_table (x : Q) : bool := existsb (Qeq_bool x) tbl.
 Definition wf_script (l : list bcs) : bool :=
   domainb tbl l [] && forallb (fun c => is_int_1_8 (bs_met c)) l.
 
-Definition active_met (l : list bcs) (s : snap) : Q :=
-  match l with [] => 0 | c :: rest => bs_met (snd (active_go 0 c rest s)) end.
-Definition wf_query (l : list bcs) (s : snap) : bool :=
-  (0 <=? s_m s)%Z && Qle_bool 0 (s_b s) && Qlt_bool (s_b s) (active_met l s) && Qeq_bool (s_met s) (active_met l s).
-
-Definition query_on_grid (l : list bcs) (s : snap) : bool :=
-  match l with [] => false | c :: rest =>
-    let a := snd (active_go 0 c rest s) in in_table (frac (seg_beats (bs_met a) (bs_snap a) s)) end.
-
-Definition same_met (l : list bcs) : bool :=
-  match l with [] => false | c :: rest => forallb (fun x => Qeq_bool (bs_met x) (bs_met c)) rest end.
-
-Definition abs_beat (s : snap) : Q := inject_Z (s_m s) * s_met s + s_b s.
-
-(* time -> active change (by time), used by the oracle for snaps *)
-Definition active_at_time (init : Q) (l : list bcs) (o : Q) : Q * bcs :=
-  match combine (change_times init l) l with
-  | [] => (0, mkBcs 1 1 (mkSnap 0 0 1))
-  | c :: rest => active_by_time c rest o
-  end.
+(* active_at_time, beats_at, abs_beat, same_met, wf_query, query_on_grid and the boolean domains dom_snapsb, dom_beatsb,
+   dom_posb, dom_beats_posb, time_on_gridb come from Timing/Domain2.v: they are the domains / spec functions of the
+   theorems C10_ms_roundtrip, C10_beats, C10_beats_of_positions in Props/C10.v *)
+Definition mets_1_8 (l : list bcs) : bool := forallb (fun c => is_int_1_8 (bs_met c)) l.
 
 Inductive c10case :=
 | COffsets (tol : Q) (init : Q) (l : list bcs) (qs : list snap) (out : option (list Q))
 | COffsetsO (tol : Q) (l : list bco) (qs : list snap) (out : option (list Q))
 | CSnaps (exact : bool) (tol : Q) (init : Q) (l : list bcs) (os : list Q) (out : option (list snap))
 | CBeats (tol : Q) (init : Q) (l : list bcs) (qs : list snap) (os : list Q) (out : option (list Q))
+(* TimingMap.beats at arbitrary times (on the grid or not) of a constant-metronome script *)
+| CBeatsT (tol : Q) (init : Q) (l : list bcs) (os : list Q) (out : option (list Q))
 | CSnapper (x : Q) (out : Q)
 | CRederive (init : Q) (l : list bcs) (out : option (list bcs)).
 
@@ -77,14 +63,23 @@ Definition bcs_list_eq (a b : list bcs) : bool :=
                          && snap_eq (bs_snap x) (bs_snap y) && Qeq_bool (s_met (bs_snap x)) (s_met (bs_snap y)) && go a' b'
    | _, _ => false end) a b.
 
+(* the conclusion of C10_ms_roundtrip for one query, as a boolean (tol = 0 on the exact stream) *)
 Definition snap_spec_ok (tol : Q) (init : Q) (l : list bcs) (o : Q) (s : snap) : bool :=
-  let '(t0, c) := active_at_time init l o in
+  let c := snd (active_at_time init l o) in
   let bl := beat_len (bs_bpm c) in
   let t := time_of init l s in
   (* within 1/192 beat at the active tempo *)
   Qle_bool (Qabs (t - o)) (bl / 192 + tol)
   (* exact when the time is on the snap grid relative to the active change *)
-  && (negb (in_table (frac ((o - t0) / bl))) || q_close tol t o).
+  && (negb (time_on_gridb tbl init l o) || q_close tol t o)
+  (* a position normalised under the active metronome *)
+  && (0 <=? s_m s)%Z && Qle_bool 0 (s_b s) && Qlt_bool (s_b s) (bs_met c) && Qeq_bool (s_met s) (bs_met c).
+
+(* the conclusion of C10_beats on the (time, cumulative beat) pairs *)
+Definition beats_time_ok (tol : Q) (init : Q) (l : list bcs) (ob : list (Q * Q)) : bool :=
+  forallb (fun p => Qle_bool (Qabs (snd p - beats_at init l (fst p))) ((1 # 192) + tol)
+                    && (negb (time_on_gridb tbl init l (fst p)) || q_close tol (snd p) (beats_at init l (fst p)))) ob
+  && forallb (fun p1 => forallb (fun p2 => negb (Qle_bool (fst p1) (fst p2)) || Qle_bool (snd p1) (snd p2 + tol)) ob) ob.
 
 Definition check (c : c10case) : verdict :=
   match c with
@@ -98,7 +93,8 @@ Definition check (c : c10case) : verdict :=
       {| corr_ok := opt_list_close tol (tm_offsets tbl l qs) out; spec_ok := true; wf_ok := true |}
   | CSnaps exact tol init l os out =>
       let m := match model_tm init l with None => None | Some b => tm_snaps tbl b os end in
-      let wf := wf_script l && forallb (Qle_bool init) os in
+      (* domain of C10_ms_roundtrip (restricted to the metronomes 1..8 the property speaks of) *)
+      let wf := dom_snapsb tbl init l os && mets_1_8 l in
       {| corr_ok := negb exact || match m, out with
                     | None, None => true | Some a, Some b => snaps_eq a b | _, _ => false end;
          spec_ok := negb wf || match out with
@@ -109,10 +105,26 @@ Definition check (c : c10case) : verdict :=
          wf_ok := wf |}
   | CBeats tol init l qs os out =>
       let m := match model_tm init l with None => None | Some b => tm_beats tbl b os end in
-      let wf := wf_script l && same_met l && forallb (wf_query l) qs && forallb (query_on_grid l) qs
-                && list_close tol (map (time_of init l) qs) os in
+      (* domain of C10_beats_of_positions (tol = 0 on the exact stream), metronomes 1..8 *)
+      let wf := dom_beats_posb tbl tol init l qs os && mets_1_8 l in
+      (* domain of C10_beats *)
+      let wft := dom_beatsb tbl init l os && mets_1_8 l in
       {| corr_ok := opt_list_close tol m out;
-         spec_ok := negb wf || opt_list_close tol (Some (map abs_beat qs)) out;
+         spec_ok := (negb wf || opt_list_close tol (Some (map abs_beat qs)) out)
+                    && (negb wft || match out with
+                                    | None => false
+                                    | Some bs => (length bs =? length os)%nat && beats_time_ok tol init l (combine os bs)
+                                    end);
+         wf_ok := wf |}
+  | CBeatsT tol init l os out =>
+      let m := match model_tm init l with None => None | Some b => tm_beats tbl b os end in
+      (* domain of C10_beats *)
+      let wf := dom_beatsb tbl init l os && mets_1_8 l in
+      {| corr_ok := opt_list_close tol m out;
+         spec_ok := negb wf || match out with
+                               | None => false
+                               | Some bs => (length bs =? length os)%nat && beats_time_ok tol init l (combine os bs)
+                               end;
          wf_ok := wf |}
   | CSnapper x out =>
       {| corr_ok := Qeq_bool (snapper_snap tbl x) out;
